@@ -51,6 +51,10 @@ int vp_harness_main(void) {
     vp_u16buf_dtor(&b); }
 #elif ROUTE == 5
   vp_ctor_u16sv(&s, p, n, mode);
+#elif ROUTE == 7
+  vp_from_std_sv16(&s, p, n, mode);
+#elif ROUTE == 8
+  vp_from_std_str16(&s, p, n, mode);
 #else
   vp_lit_u16(&s, p, n);
 #endif
@@ -77,6 +81,14 @@ int vp_harness_main(void) {
     vp_u32buf_dtor(&b); }
 #elif ROUTE == 6
   vp_lit_u32(&s, p, n);
+#elif ROUTE == 8
+  vp_from_std_sv32(&s, p, n, mode);
+#elif ROUTE == 9
+  vp_from_std_str32(&s, p, n, mode);
+#elif ROUTE == 10
+  vp_from_std_wsv(&s, p, n, mode);
+#elif ROUTE == 11
+  vp_from_std_wstr(&s, p, n, mode);
 #else
   vp_from_wchar(&s, p, n, mode);
 #endif
@@ -97,12 +109,26 @@ int vp_harness_main(void) {
       ASSERT(o.f1 == q && o.f0[q] == 0, "to_utf16 size and terminator"); vp_u16buf_dtor(&o); }
     { T_vp_to_utf32_a0 o; vp_to_utf32(&o, &s); ASSERT(!vp_exc_pending && o.f1 == SHAPE_K && o.f0[SHAPE_K] == 0, "to_utf32 size and terminator"); for (int i = 0; i < SHAPE_K; i++) ASSERT(o.f0[i] == vals[i], "to_utf32 unit"); vp_u32buf_dtor(&o); }
     { T_vp_to_wchar_a0 o; vp_to_wchar(&o, &s); ASSERT(!vp_exc_pending && o.f1 == SHAPE_K, "to_wchar size"); for (int i = 0; i < SHAPE_K; i++) ASSERT(o.f0[i] == vals[i], "to_wchar unit"); vp_wcbuf_dtor(&o); }
+#ifdef STL_OUT
+    /* the STL members: the same units in a std::basic_string (copied out by the shim) */
+    { uint8_t o[4 * SHAPE_K + 1]; uint64_t q = vp_to_std_string(&s, o, 4 * SHAPE_K); ASSERT(!vp_exc_pending && q == n, "to_std_string size"); for (uint64_t i = 0; i < 4 * SHAPE_K; i++) if (i < n) ASSERT(o[i] == sh[i], "to_std_string bytes"); }
+    { uint16_t o[2 * SHAPE_K + 1]; uint64_t q = vp_to_std_u16string(&s, o, 2 * SHAPE_K), k = 0; ASSERT(!vp_exc_pending, "to_std_u16string does not throw");
+      for (int i = 0; i < SHAPE_K; i++) { uint32_t c = vals[i]; if (c <= 0xFFFF) { ASSERT(o[k] == (uint16_t)c, "to_std_u16string unit"); k++; } else { uint32_t w = c - 0x10000u; ASSERT(o[k] == (uint16_t)(0xD800 + w / 1024u) && o[k + 1] == (uint16_t)(0xDC00 + w % 1024u), "to_std_u16string surrogate pair"); k += 2; } }
+      ASSERT(q == k, "to_std_u16string size"); }
+    { uint32_t o[SHAPE_K + 1]; uint64_t q = vp_to_std_u32string(&s, o, SHAPE_K); ASSERT(!vp_exc_pending && q == SHAPE_K, "to_std_u32string size"); for (int i = 0; i < SHAPE_K; i++) ASSERT(o[i] == vals[i], "to_std_u32string unit"); }
+    { uint32_t o[SHAPE_K + 1]; uint64_t q = vp_to_std_wstring(&s, o, SHAPE_K); ASSERT(!vp_exc_pending && q == SHAPE_K, "to_std_wstring size"); for (int i = 0; i < SHAPE_K; i++) ASSERT(o[i] == vals[i], "to_std_wstring unit"); }
+    { uint8_t o[SHAPE_K + 1]; uint64_t q = vp_to_std_string_l1(&s, o, SHAPE_K); ASSERT(!vp_exc_pending && q == SHAPE_K, "to_std_string(false) size"); for (int i = 0; i < SHAPE_K; i++) ASSERT(o[i] == (vals[i] < 0x100 ? (uint8_t)vals[i] : '?'), "to_std_string(false): Latin-1 byte, or '?' above U+00FF"); }
+#endif
     { cbuf_t o; vp_to_latin_1(&o, &s, 1); ASSERT(!vp_exc_pending && o.f1 == SHAPE_K, "to_latin_1 size"); for (int i = 0; i < SHAPE_K; i++) ASSERT(o.f0[i] == (vals[i] < 0x100 ? (uint8_t)vals[i] : '?'), "to_latin_1: the byte, or '?' for a value above U+00FF"); vp_cbuf_dtor(&o); } }
 #elif OP == 5
   { uint8_t sh[4 * SHAPE_K + 1]; uint64_t n; SHAPE_ENCODE(1, uint8_t, sh, n, vals);
     uint8_t *p = (uint8_t *)vp_exact(n); for (uint64_t i = 0; i < 4 * SHAPE_K; i++) if (i < n) p[i] = sh[i];
 #if ROUTE == 1
     vp_from_utf8(&s, p, n, mode);
+#elif ROUTE == 4
+    vp_from_std_sv8(&s, p, n, mode);
+#elif ROUTE == 5
+    vp_from_std_str8(&s, p, n, mode);
 #else
     { cbuf_t b; uint8_t tmp[N_ + 1]; S_mk_n(&b, tmp, -1, n); for (uint64_t i = 0; i < 4 * SHAPE_K; i++) if (i < n) b.f0[i] = sh[i];
 #if ROUTE == 2
